@@ -237,6 +237,9 @@ type c17Run struct {
 	tlMode  string
 	nsrc    int
 	dead    bool // a restore or its listeners hang: the database must not be touched any more
+	// snapshot paths (c17_paths.go)
+	dbPath string   // the path the database was opened with (absolute or relative to the history's directory)
+	ptpls  []string // templates used so far
 }
 
 func newC17Run(stats map[string]int) (*c17Run, error) {
@@ -244,11 +247,16 @@ func newC17Run(stats map[string]int) (*c17Run, error) {
 	if err != nil {
 		return nil, err
 	}
-	db, err := boltz.Open(filepath.Join(dir, "live.db"), "r")
+	// every history runs inside its own directory: relative snapshot paths land there
+	if err = c17pEnter(dir); err != nil {
+		return nil, err
+	}
+	dbPath := filepath.Join(dir, "live.db")
+	db, err := boltz.Open(dbPath, "r")
 	if err != nil {
 		return nil, err
 	}
-	return &c17Run{dir: dir, db: db, stores: newCsStores(), ids: map[string]string{}, stats: stats}, nil
+	return &c17Run{dir: dir, db: db, stores: newCsStores(), ids: map[string]string{}, stats: stats, dbPath: dbPath}, nil
 }
 
 func (h *c17Run) close() {
@@ -258,6 +266,7 @@ func (h *c17Run) close() {
 			_ = h.db.Close()
 		}()
 	}
+	c17pLeave()
 	_ = os.RemoveAll(h.dir)
 }
 
@@ -428,15 +437,8 @@ func (h *c17Run) registerSnapshot(path, id string) ([]csEntry, error) {
 	return c17FileContent(path)
 }
 
-func (h *c17Run) opSnap(kind string, commit bool, before, after []c17Wop) {
-	if h.dead {
-		return
-	}
-	defer h.guard()
-	path := filepath.Join(h.dir, fmt.Sprintf("snap%d", len(h.files)))
-	var actual, id string
-	var err error
-	caseTok := "snap " + kind
+// snapCall: Snapshot / SnapshotInTx in a read or write transaction with the given path
+func (h *c17Run) snapCall(path, kind string, commit bool, before, after []c17Wop) (actual, id string, err error) {
 	switch kind {
 	case "plain":
 		actual, id, err = h.db.Snapshot(path)
@@ -447,7 +449,6 @@ func (h *c17Run) opSnap(kind string, commit bool, before, after []c17Wop) {
 			return e
 		})
 	case "upd":
-		caseTok = fmt.Sprintf("snap upd %d %s %s", b2i(commit), c17Wops(before), c17Wops(after))
 		var snapErr error
 		_ = h.db.Update(nil, func(ctx boltz.MutateContext) error {
 			for _, w := range before {
@@ -473,6 +474,24 @@ func (h *c17Run) opSnap(kind string, commit bool, before, after []c17Wop) {
 		})
 		err = snapErr
 	}
+	return actual, id, err
+}
+
+func c17SnapKindTok(kind string, commit bool, before, after []c17Wop) string {
+	if kind == "upd" {
+		return fmt.Sprintf("upd %d %s %s", b2i(commit), c17Wops(before), c17Wops(after))
+	}
+	return kind
+}
+
+func (h *c17Run) opSnap(kind string, commit bool, before, after []c17Wop) {
+	if h.dead {
+		return
+	}
+	defer h.guard()
+	path := filepath.Join(h.dir, fmt.Sprintf("snap%d", len(h.files)))
+	caseTok := "snap " + c17SnapKindTok(kind, commit, before, after)
+	actual, id, err := h.snapCall(path, kind, commit, before, after)
 	h.stats["op_snap_"+kind]++
 	if err != nil {
 		h.emit(caseTok, "snap error:"+hxs(err.Error()))
@@ -667,16 +686,23 @@ func (h *c17Run) genOp(r *rng) {
 }
 
 func (h *c17Run) genSnap(r *rng) {
+	if r.chance(45) && h.genSnapPath(r) {
+		return
+	}
+	h.genSnapKind(r, func(kind string, commit bool, before, after []c17Wop) { h.opSnap(kind, commit, before, after) })
+}
+
+func (h *c17Run) genSnapKind(r *rng, do func(kind string, commit bool, before, after []c17Wop)) {
 	switch r.intn(4) {
 	case 0:
-		h.opSnap("plain", true, nil, nil)
+		do("plain", true, nil, nil)
 	case 1:
-		h.opSnap("view", true, nil, nil)
+		do("view", true, nil, nil)
 	case 2:
 		// the way migration.go uses it: first thing in a write transaction
-		h.opSnap("upd", !r.chance(20), nil, c17GenWops(r, 3))
+		do("upd", !r.chance(20), nil, c17GenWops(r, 3))
 	default:
-		h.opSnap("upd", !r.chance(20), c17GenWops(r, 3), c17GenWops(r, 3))
+		do("upd", !r.chance(20), c17GenWops(r, 3), c17GenWops(r, 3))
 	}
 }
 
@@ -830,6 +856,10 @@ func (h *c17Run) replay(line string) {
 			default:
 				h.opSnap(kind, true, nil, nil)
 			}
+		case "snapp":
+			h.replaySnapPath(t)
+		case "open":
+			h.opOpen(t.next())
 		case "stream":
 			h.opStream()
 		case "restore":
@@ -937,8 +967,13 @@ func runC17(o *opts) error {
 		if err != nil {
 			return err
 		}
+		if i%4 == 1 {
+			h.opOpen(r.pick(c17pOpenModes)) // the database file somewhere else / opened through a relative path
+		}
 		if i%8 == 5 {
 			h.genReaderSweep(r)
+		} else if i%8 == 3 {
+			h.genPathSweep(r)
 		} else {
 			h.genHistory(r, i%3 != 2)
 		}
